@@ -90,10 +90,15 @@ func (h *hist) fn(name string) (reflect.Value, bool) {
 func (h *hist) mustFn(name string) reflect.Value {
 	f, ok := h.fn(name)
 	if !ok {
-		kernel.Harnessf("cannot drive program %s: the generated file has no function %s", h.prog.Name, name)
+		panic(undrivable{fmt.Sprintf("cannot drive program %s: the generated file has no function %s", h.prog.Name, name)})
 	}
 	return f
 }
+
+// undrivable is the panic value of an operation the harness cannot perform on
+// this tree: the operation is skipped, the history goes on, and the batch ends
+// as harness trouble unless some run finds a violation of its own.
+type undrivable struct{ msg string }
 
 // call invokes a generated function; the error result (always last) is split off.
 func (h *hist) call(name string, f reflect.Value, args ...reflect.Value) ([]reflect.Value, error) {
